@@ -45,6 +45,8 @@ func allScenarios() []*scenario {
 			Why: "reader ‖ {Add; range} ‖ Add, preemption-bounded"},
 		{Name: "S7-close", Init: "two", Procs: []procSpec{P(st("close")), P(add("a"))}, Preempt: -1,
 			Why: "Close ‖ auto-compacting Add: Close must not unlink listed tables"},
+		{Name: "S7-close-partial", Init: "three", Procs: []procSpec{PNoAuto(st("close")), PNoAuto(rng(0, 1))}, Preempt: -1,
+			Why: "Close of a handle that goes stale through a compaction BELOW a table it keeps: the kept table is still listed and must not be unlinked"},
 		{Name: "S7-clean", Init: "two", Procs: []procSpec{P(st("clean")), P(add("a"))}, Preempt: -1,
 			Why: "Clean ‖ auto-compacting Add: GC safety"},
 		{Name: "S7-clean-compact", Init: "three", Procs: []procSpec{PNoAuto(st("clean")), PNoAuto(compactAll())}, Preempt: -1,
@@ -77,6 +79,12 @@ func allScenarios() []*scenario {
 			Why: "reader reloads while the other handle compacts BELOW a table the reader keeps, adds on top and compacts the additions: reused readers are not a prefix of the new list"},
 		{Name: "S6q-b2", Init: "three", Procs: []procSpec{PNoAuto(rng(0, 1), add("a"), add("b"), rng(2, 3)), Reader(st("read"), add("r1"), st("read"))}, Preempt: 2,
 			Why: "as S6q with at most 2 preemptions (quick tier)"},
+		{Name: "F1-fault-compact-add", Init: "two", Procs: []procSpec{PNoAuto(compactAll()), PNoAuto(add("a"))}, Preempt: -1, Faults: 1,
+			Why: "CompactAll ‖ Add with one injected I/O fault (EIO on any create/open/rename/read/write call of either): locks, list integrity and residue must survive failed calls"},
+		{Name: "F2-fault-add-add", Init: "one", Procs: []procSpec{P(add("a")), P(add("b"))}, Preempt: -1, Faults: 1,
+			Why: "auto-compacting Add ‖ Add with one injected I/O fault"},
+		{Name: "F3-fault-range-range", Init: "four", Procs: []procSpec{PNoAuto(rng(0, 2)), PNoAuto(rng(1, 3))}, Preempt: 2, Faults: 1,
+			Why: "overlapping range compactions with one injected I/O fault"},
 		{Name: "S16", Init: "three", Procs: []procSpec{PNoAuto(rng(1, 2)), PNoAuto(add("a"))}, Preempt: -1,
 			Why: "partial-range compaction over a tombstone ‖ Add"},
 	}
@@ -96,10 +104,10 @@ func allScenarios() []*scenario {
 
 var quickSets = map[string][]string{
 	"C04": {"S1-empty", "S1-one", "S2", "S5", "S8", "S14", "S9", "S1-one@s256", "S10", "S18-reject", "S19-span"},
-	"C05": {"S1-one", "S2", "S4", "S4b", "S18-reject", "S19-span", "S5", "S7-close", "S7-clean", "S13", "S15-crash", "S16"},
-	"C08": {"S1-one", "S2", "S4b", "S5", "S5b", "S8", "S7-clean"},
+	"C05": {"S1-one", "S2", "S4", "S4b", "S18-reject", "S19-span", "S6p", "S6q-b2", "S7-close-partial", "F1-fault-compact-add", "F2-fault-add-add", "S5", "S7-close", "S7-clean", "S13", "S15-crash", "S16"},
+	"C08": {"S1-one", "S2", "S4b", "S5", "S5b", "S8", "S7-clean", "F1-fault-compact-add", "F2-fault-add-add", "F3-fault-range-range"},
 	"C10": {"S6", "S6p", "S6o", "S6q-b2", "S1-one"},
-	"C16": {"S1-empty", "S1-one", "S2", "S4", "S4b", "S18-reject", "S5", "S7-close", "S7-clean", "S7-clean-compact", "S8", "S10", "S17-gc-empty"},
+	"C16": {"S1-empty", "S1-one", "S2", "S4", "S4b", "S18-reject", "S7-close-partial", "F1-fault-compact-add", "F2-fault-add-add", "S5", "S7-close", "S7-clean", "S7-clean-compact", "S8", "S10", "S17-gc-empty"},
 }
 
 func catalogue(prop, tier string) []*scenario {
@@ -107,6 +115,9 @@ func catalogue(prop, tier string) []*scenario {
 	if tier == "thorough" {
 		var out []*scenario
 		for _, s := range all {
+			if (prop == "C04" || prop == "C10") && s.Faults > 0 {
+				continue // C04 is stated 'in the absence of I/O faults'; C10's reader may legitimately see its own calls fail
+			}
 			if prop == "C04" && s.MixedHash {
 				// the refinement monitor models one hash size; S13's oracle is C05's list-integrity monitor
 				continue
